@@ -90,6 +90,7 @@ type GuardRule struct {
 	Struct string // qualified struct type name
 	Field  string
 	Mutex  string
+	Snap   []string // ghost variables receiving (presence, values) of the guarded map at each acquisition
 	Where  string
 }
 
@@ -300,11 +301,14 @@ func (sp *Specs) parseLines(lines []rawLine, pkgPath string) error {
 			}
 		case "guarded":
 			// guarded[tags] pkg.Type.field by mutexField
-			m := regexp.MustCompile(`^guarded(?:\[([^\]]*)\])?\s+(\S+)\.(\w+)\s+by\s+(\w+)$`).FindStringSubmatch(h)
+			m := regexp.MustCompile(`^guarded(?:\[([^\]]*)\])?\s+(\S+)\.(\w+)\s+by\s+(\w+)(?:\s+snapshot\s+(\w+)\s*,\s*(\w+))?$`).FindStringSubmatch(h)
 			if m == nil {
-				return fmt.Errorf("%s: guarded[tags] pkg.Type.field by mutexField", where)
+				return fmt.Errorf("%s: guarded[tags] pkg.Type.field by mutexField [snapshot ghostHas, ghostVal]", where)
 			}
 			g := &GuardRule{Struct: sp.qualify(m[2], pkgPath), Field: m[3], Mutex: m[4], Where: where}
+			if m[5] != "" {
+				g.Snap = []string{m[5], m[6]}
+			}
 			for _, t := range strings.Split(m[1], ",") {
 				if t = strings.TrimSpace(t); t != "" {
 					g.Tags = append(g.Tags, t)
